@@ -647,7 +647,7 @@ func Unmarshal(buffer []byte) (GeoJSON, error) {
 			return nil, err
 		}
 		return &feature, nil
-	case "Point", "MultiPoint", "LineString", "Polygon", "MultiPolygon":
+	case "Point", "MultiPoint", "LineString", "MultiLineString", "Polygon", "MultiPolygon":
 		var geometry Geometry
 		if err := json.Unmarshal(buffer, &geometry); err != nil {
 			return nil, err
